@@ -1,6 +1,8 @@
 import LZ4V.Judge.Rec
 import LZ4V.Judge.Block
 import LZ4V.Judge.Decode
+import LZ4V.Judge.Frame
+import LZ4V.Judge.Stream
 import Std.Data.HashMap
 /-!
 `lz4vmodel judge <casefile> <faildir>` : walk the case records written by a harness, run the specification / model
@@ -13,6 +15,10 @@ def dispatch (blobs : Std.HashMap Nat ByteArray) (r : Rec) : Verdict :=
   match r.op with
   | 1 => judgeBlock r
   | 2 => judgeDecode blobs r
+  | 3 => judgeFrame blobs r
+  | 4 => judgeFrameDec blobs r
+  | 5 => judgeGenFunc r
+  | 6 => judgeStreamBlock r
   | 100 => {}
   | _ => { fails := [("unknown_op", s!"op={r.op}")] }
 
